@@ -112,4 +112,18 @@ CHECKS = {
         level_note="Trusts harness/ref4, ref6 and proj; inputs in a gray zone of the reference are checked for library self-consistency only.",
         assumptions=["hlen > 16 is re-encoded as the clipped length (chaddr bytes equal): treated as part of 'equal message'"],
     ),
+    "C16": dict(
+        title="DHCPv6 builders and relay encapsulation preserve identity and nesting",
+        stages=[dict(name="bld", shards=S16, timeout={"quick": 900, "thorough": 3600})],
+        rule="(a) relay cases: an inner message of any type with a random subset of {client-id, server-id, IA_NA (1 or 2), IA_PD, rapid-commit, vendor class}, wrapped by EncapsulateRelay into a chain of depth 1..16 "
+             "with addresses from realistic classes and any subset of interface-id / remote-id (+ unrelated options) per level; every check is made on the built chain and again after ToBytes/FromBytes; "
+             "(b) builder cases: messages of every type 1..14 (and arbitrary type octets) with every subset of those options, 1/3 of them after a wire trip. Shape = (depth, #interface-ids, #remote-ids, inner options) "
+             "resp. (message type, option subset, via wire); non-trivial iff depth >= 2 resp. a defined message type.",
+        technique="reference model of the relay/builder contracts evaluated online on the real builders' results (neutral-tree equality per level), also after a wire round trip",
+        level_text="Decapsulate(Encapsulate(m)) == m, hop count = level index, GetInnerMessage/GetTransactionID/DecapsulateRelayIndex(-1, 0..depth-1) find the right node at every depth; relay-reply from relay-forward: "
+                   "same depth, RELAY-REPL at each level, link/peer equal level by level, interface-id and remote-id echoed at the same level, the given reply innermost; advertise/request/reply builders: type, xid kept, "
+                   "client-id/server-id/IA_NA/IA_PD echoed (tree equality), rapid-commit carried; wrong type / missing option / nil input must yield an error and no value.",
+        level_note="Trusts harness/proj for equality. DECLINE as input of the reply builder is unjudged (RFC 8415 answers it with a Reply, the library refuses it; the statement does not decide it).",
+        assumptions=["which message types are 'wrong' for the reply builder follows RFC 8415 section 18.3 (Solicit only with rapid commit; Request, Confirm, Renew, Rebind, Release, Information-request)"],
+    ),
 }
